@@ -527,7 +527,7 @@ def _log_poly(func, p):
 
 
 VALUE_FUNCS = {"and", "or", "not", "cmp_lt", "cmp_le", "cmp_eq", "cmp_ne", "isnan", "isinf", "nparray", "zeros", "ones",
-               "where", "pylist"}
+               "where", "pylist", "unique", "sort", "map", "call:numpy.intersect1d", "setitem"}
 
 
 def _definitely_value(r):
@@ -535,6 +535,8 @@ def _definitely_value(r):
     if r.is_const():
         return True
     at = r.as_atom()
+    if at is not None and at.func == "ifexp":
+        return all(isinstance(x, Rat) and _definitely_value(x) for x in at.args[1:3])
     return at is not None and at.func in VALUE_FUNCS
 
 
